@@ -213,7 +213,12 @@ func (c *Ctx) fieldPath(e ast.Expr) string {
 	if fp == "" {
 		return fp
 	}
-	return c.lexFieldAlias(fp)
+	fp = c.vmFieldAlias(c.lexFieldAlias(fp))
+	// the scope tables reached through a method of scopeCompiler itself: the parser has exactly one
+	if strings.HasPrefix(fp, "<scopeCompiler>.") {
+		fp = "<parser>.scope." + strings.TrimPrefix(fp, "<scopeCompiler>.")
+	}
+	return fp
 }
 
 func (c *Ctx) fieldPathRaw(e ast.Expr) string {
